@@ -148,8 +148,12 @@ func (w *worker) build(d *dataset, rng *rand.Rand, thorough bool) bool {
 	nids := target + target/3 + 2
 	pointsOnly := rng.Intn(4) == 0
 	pick := func() geo.Obj {
-		if rng.Intn(25) == 0 {
+		switch rng.Intn(25) {
+		case 0:
 			return d.gen.Object("string")
+		case 1:
+			// an empty geometry: stored, never indexed, and a predecessor for later overwrites
+			return d.gen.Object("empty")
 		}
 		if pointsOnly {
 			return d.gen.Object("point")
@@ -688,7 +692,7 @@ func (w *worker) runDataset(idx int) {
 
 // Run is the C13 check.
 func Run(ctx *core.Ctx) {
-	ctx.Rule = "each dataset is built on a fresh key by a PRNG history (insert, overwrite with another kind, move, exact duplicates, delete, drop+recreate, optional mass delete) of points/rectangles/lines/polygons/multi-geometries/features in one region class (world, local cluster down to 1e-7 deg, poles, antimeridian, around 0,0) with float32-hostile coordinates; then NEARBY key LIMIT k [DISTANCE] IDS POINT lat lon [r] for query points at/inside/near objects, poles, +-180, antipodes, former positions; k in 1..n+3 or radius on both sides (1e-4..0.3 relative) of an object's oracle distance. The oracle is geo (haversine R=6371e3; numeric point-to-bounding-rectangle distance) on the coordinates the harness generated; judged outside a band of 1e-6 relative + 1e-6 m: order, DISTANCE agreement, count and no closer unreturned object for k-nearest, exact membership for radius. non-trivial = query over >= 2 distinct oracle distances with a non-empty reply; distinct key = (dataset hash, query point kind, knn|radius, result size bucket)"
+	ctx.Rule = "each dataset is built on a fresh key by a PRNG history (insert, overwrite with another kind, move, exact duplicates, delete, drop+recreate, optional mass delete) of points/rectangles/lines/polygons/multi-geometries/features (and, as predecessors of overwrites, strings and empty geometries) in one region class (world, local cluster down to 1e-7 deg, poles, antimeridian, around 0,0) with float32-hostile coordinates; then NEARBY key LIMIT k [DISTANCE] IDS POINT lat lon [r] for query points at/inside/near objects, poles, +-180, antipodes, former positions; k in 1..n+3 or radius on both sides (1e-4..0.3 relative) of an object's oracle distance. The oracle is geo (haversine R=6371e3; numeric point-to-bounding-rectangle distance) on the coordinates the harness generated; judged outside a band of 1e-6 relative + 1e-6 m: order, DISTANCE agreement, count and no closer unreturned object for k-nearest, exact membership for radius. non-trivial = query over >= 2 distinct oracle distances with a non-empty reply; distinct key = (dataset hash, query point kind, knn|radius, result size bucket)"
 	ctx.Assumptions = []string{
 		"coordinates finite and inside [-90,90]x[-180,180]; no HASH objects (their position is a decoder output, not harness input)",
 		"radius queries use LIMIT > n so that LIMIT does not truncate; radius 0 is not used (the statement speaks of a positive radius)",
